@@ -20,6 +20,8 @@ type Stat struct {
 	Paths       int
 	Splits      int
 	UnwindFails int
+	Asserts      int // vAssert calls executed (on all paths)
+	AssertsConst int // of those, decided by the term simplifier (concrete paths, syntactically equal terms)
 }
 
 type Exec struct {
